@@ -24,7 +24,7 @@
  * Bounds: quick N = 6, C = 4; thorough N = 12, C = 6 (K = 3) plus K = 4 keys /
  * 4 times {..,(1,5)} with N = 10, C = 5.
  * --deep (given by ./check to the thorough tier only; the searches above are
- * kept and these are added): see DEEPCFG below — K = 3 with N = 18 (heap,
+ * kept and these are added): see DEEPCFG below — K = 3 with N = 17 (heap,
  * timer queue; C = 7) and N = 20 (heap without callback), K = 4 with N = 13
  * (N = 15 without callback), K = 5 keys {0..4} with N = 11 (N = 12 without
  * callback; heap only, the timer queue has 4 times).  N >= 16 adds the fifth
@@ -98,6 +98,7 @@ static int edge_failed;
 static char casebuf[200];
 static uint32_t curop; static const uint8_t * curstate; static size_t curstatelen;
 static char prefix[32];		/* counter prefix */
+static int deepflag;		/* --deep given */
 
 enum { OP_INIT = 1, OP_CREATE, OP_ADD, OP_DELETEMIN, OP_DELETE, OP_INCREASE, OP_DECREASE, OP_INCREASEMIN, OP_GETPTR, OP_ADD_OOM };
 /* allocator seam (-Wl,--wrap): while oom is set every allocation requested by the code under test is refused */
@@ -507,6 +508,7 @@ run_search(uint64_t unit)
 	snprintf(key, sizeof(key), "%s.traces", prefix); vf_count(key, S.E.transitions);
 	snprintf(key, sizeof(key), "%s.maxdepth", prefix); vf_setmax(key, S.E.maxdepth);
 	snprintf(key, sizeof(key), "%s.exhaustive", prefix); if (es_complete(&S.E)) vf_setmax(key, 1);
+	if (deepflag) printf("search %s: %llu states, %llu transitions, finished %.1f s after the start\n", prefix, (unsigned long long)S.E.n, (unsigned long long)S.E.transitions, vf_now());
 	esh_free(&S);
 }
 
@@ -545,8 +547,8 @@ do_replay(const char * js)
  * create(n, c) is encoded in 12 bits, so nkeys^cmax must stay below 4096.
  */
 static const struct cfg DEEPCFG[] = {
-	{"heap", 18, 3, 1, 7},
-	{"tq", 18, 3, 1, 0},
+	{"heap", 17, 3, 1, 7},
+	{"tq", 17, 3, 1, 0},
 	{"heap", 13, 4, 1, 5},
 	{"heap", 11, 5, 1, 5},
 	{"tq", 13, 4, 1, 0},
@@ -558,11 +560,11 @@ static const struct cfg DEEPCFG[] = {
 int
 main(int argc, char ** argv)
 {
-	int N, C, deep = 0, i;
+	int N, C, i;
 	vf_init(&argc, argv, "h_heap");
 	if (vf_replay) return do_replay(vf_replay);
 	for (i = 1; i < argc; i++) {
-		if (!strcmp(argv[i], "--deep")) deep = 1;	/* anything else is ignored, as before */
+		if (!strcmp(argv[i], "--deep")) deepflag = 1;	/* anything else is ignored, as before */
 	}
 	N = vf_tier ? 14 : 12; C = vf_tier ? 6 : 5;
 	CFGS[NCFG++] = (struct cfg){"heap", N, 3, 1, C};
@@ -572,11 +574,11 @@ main(int argc, char ** argv)
 		CFGS[NCFG++] = (struct cfg){"heap", 11, 4, 1, 5};
 		CFGS[NCFG++] = (struct cfg){"tq", 11, 4, 1, 0};
 	}
-	if (deep) for (i = 0; i < (int)(sizeof(DEEPCFG) / sizeof(DEEPCFG[0])); i++) CFGS[NCFG++] = DEEPCFG[i];
+	if (deepflag) for (i = 0; i < (int)(sizeof(DEEPCFG) / sizeof(DEEPCFG[0])); i++) CFGS[NCFG++] = DEEPCFG[i];
 	vf_info("bounds", "heap: keys {0,1,2}, <= %d elements, create from every array of <= %d keys, ops add/deletemin/delete(h)/increase(h)/decrease(h)/increasemin, with and without record-cookie callback; "
 	    "timer queue: times {(0,0),(0,5),(2^31+100,0)}, <= %d entries, ops add/delete(h)/increase(h)/getptr(t)/getmin%s; every search to its fixed point",
 	    N, C, N, vf_tier ? "; additionally 4 keys / 4 times with <= 11 elements, create from <= 5 keys" : "");
-	if (deep) {
+	if (deepflag) {
 		char b[1200]; size_t o = 0;
 		for (i = 0; i < (int)(sizeof(DEEPCFG) / sizeof(DEEPCFG[0])); i++)
 			o += (size_t)snprintf(b + o, sizeof(b) - o, "%s%s%s: %d keys, <= %d %s%s", i ? "; " : "", DEEPCFG[i].kind, DEEPCFG[i].cb ? "" : " without callback", DEEPCFG[i].nkeys, DEEPCFG[i].cap,
@@ -588,7 +590,7 @@ main(int argc, char ** argv)
 	if (!vf_deadline_hit() && vf_nviolations() == 0 && vf_getcount("crashed_units") == 0) {
 		char key[64]; snprintf(key, sizeof(key), "heap.k3.n%d.states", N);
 		if (vf_getcount(key) < 100) vf_engine_error("heap search found only %llu states", (unsigned long long)vf_getcount(key));
-		if (deep && vf_getcount("heap.k3.n18.states") < 600000) vf_engine_error("deep heap search found only %llu states", (unsigned long long)vf_getcount("heap.k3.n18.states"));
+		if (deepflag && vf_getcount("heap.k3.n17.states") < 300000) vf_engine_error("deep heap search found only %llu states", (unsigned long long)vf_getcount("heap.k3.n17.states"));
 	}
 	return vf_finish();
 }
